@@ -90,7 +90,7 @@ def check_sign(case):
         if ssa.sign(msg, q, aux).serialize() != b340.schnorr_sign(hashlib.sha256(msg).digest(), q.to_bytes(32, "big"), aux):
             raise Violation("sign:sign-vs-sign_", "")
         kq, kx = ssa.gen_keys(q)
-        if kx != int.from_bytes(xq, "big") or kq not in (q, N - q) or ref.mult(kq, b340.G, P, 0, N)[1] % 2:
+        if kx != int.from_bytes(xq, "big") or kq not in (q, N - q):  # q and n - q are one BIP340 key: which of the two is handed back is not promised
             raise Violation("sign:gen_keys", f"{kq:x} {kx:x}")
     return Outcome(True, (f"len={min(len(msg), 65)}" if len(msg) in (0, 1, 31, 32, 33, 64) else "len=other", f"bindings={case['backend']}"))
 
@@ -275,8 +275,9 @@ def check_commit(case):
             if 0 < tw < N:
                 break
         W = b340.point_add(receipt, b340.point_mul(b340.G, tw))
-        if W is None or W[0] != sig.r or b340.lift_x(receipt[0]) is None:
-            raise Violation("commit:opening-equation-fails", f"r={sig.r:x}")
+        # (the tag, the encoding of the receipt and the re-hash loop are the library's private construction, promised nowhere: that the model's reading of it
+        # opens the commitment is recorded; what is asked is that the library's own opening accepts this commitment -- above -- and no other -- below)
+        construction = "s2c-construction=model's" if W is not None and W[0] == sig.r and b340.lift_x(receipt[0]) is not None else "s2c-construction=another"
         if ch != other and ssa.verify_(msg, xq, sig, commit_hash=other, receipt=receipt):
             raise Violation("commit:other-commitment-accepted", "")
         R2 = b340.point_mul(b340.G, 7 + q % 1000)
@@ -285,7 +286,7 @@ def check_commit(case):
         sig2, receipt2 = ssa.sign_(msg, q, aux, commit_hash=ch)
         if (sig2, receipt2) != (sig, receipt):
             raise Violation("commit:not-deterministic", "")
-    return Outcome(True, (f"bindings={case['backend']}",))
+    return Outcome(True, (f"bindings={case['backend']}", construction))
 
 
 # ---------------------------------------------------------------- other curves: toy truth table
@@ -305,12 +306,16 @@ def toy_units(tier):
 def toy_run_unit(unit, col):
     p, a, b, G, n, h, N_ = unit
     G = tuple(G)
-    ec = Curve(p, a, b, G, n, h, weakness_check=False)
+    try:
+        ec = Curve(p, a, b, G, n, h, weakness_check=False)
+    except (BTClibValueError, BTClibTypeError):
+        col.bulk(1, 0, None, {"curve-not-taken-by-the-library": 1})  # which toy curves are curves is C01's question
+        return
     hf = hashlib.sha1
     pts = {}
     for (x, y) in ref.points(p, a, b):
         pts.setdefault(x, []).append(y)
-    evals = nontriv = 0
+    evals = nontriv = refused = 0
     cid = {"p": p, "a": a, "b": b, "G": G, "n": n, "h": h}
     sub = {}
     R, k = G, 1
@@ -324,9 +329,12 @@ def toy_run_unit(unit, col):
             for aux in (b"\x00" * 20, b"\x01" * 20):
                 evals += 1
                 try:
-                    sig = ssa.sign_(msg, q, aux, ec, hf)
+                    # verify=False: the signer's own check would turn a wrong signature into the same exception class as the one documented refusal
+                    # (a challenge that is zero mod n, frequent on curves this small), and what came through would be the library checked by itself
+                    sig = ssa.sign_(msg, q, aux, ec, hf, verify=False)
                 except BTClibRuntimeError:
-                    continue  # zero challenge: documented refusal on curves this small
+                    refused += 1
+                    continue
                 Q = ref.mult(q, G, p, a, n)
                 if not ssa.verify_(msg, Q[0], sig, hf):
                     col.fail("toy:own-signature-does-not-verify", {"unit": unit}, f"{cid} q={q} msg={msg!r}")
@@ -361,7 +369,7 @@ def toy_run_unit(unit, col):
                         return
                     if want or (r in pts and s < n):
                         nontriv += 1
-    col.bulk(evals, nontriv, {"curve": cid, "table": f"x_Q over the subgroup, r in 0..{p}, s in 0..{n}, 3 messages"}, {f"pmod4={p % 4}": 1})
+    col.bulk(evals, nontriv, {"curve": cid, "table": f"x_Q over the subgroup, r in 0..{p}, s in 0..{n}, 3 messages"}, {f"pmod4={p % 4}": 1, "sign-refused(zero challenge)": refused})
 
 
 @st.composite
@@ -408,13 +416,21 @@ def check_other(case):
 # ---------------------------------------------------------------- codec
 @st.composite
 def codec_case(draw):
-    return {"data": draw(st.one_of(st.binary(min_size=64, max_size=64), st.binary(min_size=60, max_size=68), st.binary(max_size=70))).hex(), "valid_r": draw(st.booleans()), "q": draw(keys())}
+    return {"data": draw(st.one_of(st.binary(min_size=64, max_size=64), st.binary(min_size=64, max_size=64), st.binary(min_size=64, max_size=64), st.binary(min_size=60, max_size=68), st.binary(max_size=70))).hex(), "valid_r": draw(st.booleans()), "q": draw(keys()),
+            # the two range rules of the parser, which random bytes never meet (32 random bytes exceed n once in 2^128)
+            "r_kind": draw(st.sampled_from(["as-is", "as-is", "as-is", "p-1", "p", "p+1", "max", "0"])), "s_kind": draw(st.sampled_from(["as-is", "as-is", "as-is", "0", "n-1", "n", "n+1", "max"]))}
 
 
 def check_codec(case):
     data = bytes.fromhex(case["data"])
     if case["valid_r"] and len(data) >= 64:
         data = b340.pubkey_gen(case["q"].to_bytes(32, "big")) + data[32:]
+    if len(data) == 64:
+        edge = {"p-1": P - 1, "p": P, "p+1": P + 1, "max": 2**256 - 1, "0": 0, "n-1": N - 1, "n": N, "n+1": N + 1}
+        if case.get("r_kind", "as-is") != "as-is":
+            data = edge[case["r_kind"]].to_bytes(32, "big") + data[32:]
+        if case.get("s_kind", "as-is") != "as-is":
+            data = data[:32] + edge[case["s_kind"]].to_bytes(32, "big")
     ok_model = len(data) == 64 and b340.lift_x(int.from_bytes(data[:32], "big")) is not None and int.from_bytes(data[32:], "big") < N
     try:
         sig = ssa.Sig.parse(data)
@@ -429,7 +445,8 @@ def check_codec(case):
         lax = ssa.Sig.parse(data, check_validity=False)
         if lax.serialize(check_validity=False) != data:
             raise Violation("codec:round-trip-unchecked", data.hex())
-    return Outcome(len(data) == 64, ("accepted" if got else "refused",))
+    why = "len" if len(data) != 64 else "r>=p" if int.from_bytes(data[:32], "big") >= P else "r-unliftable" if b340.lift_x(int.from_bytes(data[:32], "big")) is None else "s>=n" if int.from_bytes(data[32:], "big") >= N else "?"
+    return Outcome(len(data) == 64, ("accepted" if got else "refused:" + why, f"s={case.get('s_kind', 'as-is')}"))
 
 
 SUBCHECKS = [
